@@ -16,7 +16,8 @@ TRUSTED_BASE = [
 ]
 LEVEL = ("Coq theorems (Props/C01.v), generic in the amount type and the quantity instance: the converted value carries exactly the requested unit; converting to the present unit returns the identical value "
          "(nothing computed); equiv_amount and convert agree (also in panicking); for different units the result is exactly mul(div(scale from, scale to), amount) - the normal form that pins operand roles. "
-         "ratio/equiv_amount/convert are re-translated from src/lib.rs on every run. The magnitude bound is additionally judged on the implementation for ALL ordered unit pairs with exact rationals (testing, supporting). In the binary floating-point configuration the magnitude bound itself is a theorem (Props/Accuracy.v, from Flocq: |a'*s_v - M| <= ((1+2^-53)^2-1)|M| when the scale ratio and the product are in the normal range), with a concrete catalogue case meeting its premises (ACC_C01_not_vacuous), and for EVERY predefined quantity with a reference unit and every ordered unit pair the premises about the scales are discharged by computation on the exact values of the doubles (ACC_C01_catalogue_scales, 1520 pairs), leaving premises on the amount only (ACC_C01_catalogue_convert); in the decimal configuration (Props/AccuracyDec.v, over the model of fpdec::Decimal): |a'*s_v - M| <= 5e-19 (|a|+1)|s_v| whenever the conversion returns, exactly M when the scale ratio and the converted amount have at most 18 fractional digits, and the conversion does return while the ratio and the converted amount stay below 1e19 (DEC_C01_convert, DEC_C01_convert_exact, DEC_C18_convert_total, with 2.5 in -> cm meeting every premise: DEC_C01_not_vacuous).")
+         "ratio/equiv_amount/convert are re-translated from src/lib.rs on every run. The magnitude bound is additionally judged on the implementation for ALL ordered unit pairs with exact rationals (testing, supporting). In the binary floating-point configuration the magnitude bound itself is a theorem (Props/Accuracy.v, from Flocq: |a'*s_v - M| <= ((1+2^-53)^2-1)|M| when the scale ratio and the product are in the normal range), with a concrete catalogue case meeting its premises (ACC_C01_not_vacuous), and for EVERY predefined quantity with a reference unit and every ordered unit pair the premises about the scales are discharged by computation on the exact values of the doubles (ACC_C01_catalogue_scales, 1520 pairs), leaving premises on the amount only (ACC_C01_catalogue_convert); in the decimal configuration (Props/AccuracyDec.v, over the model of fpdec::Decimal): |a'*s_v - M| <= 5e-19 (|a|+1)|s_v| whenever the conversion returns, exactly M when the scale ratio and the converted amount have at most 18 fractional digits, and the conversion does return while the ratio and the converted amount stay below 1e19 (DEC_C01_convert, DEC_C01_convert_exact, DEC_C18_convert_total, with 2.5 in -> cm meeting every premise: DEC_C01_not_vacuous)."
+         " Composed over whole programs (Props/Programs.v, axiom-free): for every amount type with exact arithmetic, any tree of constructions, conversions, sums, differences and scalings by numbers run through the translated kernels carries the statically determined unit and denotes exactly its abstract physical magnitude, and ratio / == / partial ordering of two results are the abstract ratio, equality and order (PROG_refines, PROG_ratio, PROG_eq, PROG_cmp; induction over the program); instantiated with an exact rational amount type on every predefined quantity with a reference unit (PROG_catalogue, PROG_not_vacuous).")
 LEVEL_NOTE = "Trusted: Coq kernel, translator rs2j+j2v, Macro/Inst.v, the hand models of binary64 (Flocq) and fpdec used by the correspondence; no axioms in the structural theorems; the accuracy theorems rest on Flocq and the stdlib real-number axioms."
 ASSUMPTIONS = [
     "Rust's f64 arithmetic is IEEE-754 binary64 round-to-nearest-even and rustc rounds literals correctly (validated: scale bit patterns and results compared on every run)",
